@@ -137,6 +137,27 @@ def run_case(case):
             res.add_obl(obl)
             if obl.failed and 'C03/verbose' not in viol:
                 viol['C03/verbose'] = {'signature': 'C03/verbose', 'what': obl.failed[0][0], 'opts': list(opts), 'limit': limit, 'nofail': nofail, 'verbose': verbose}
+    # the machine: hosts that report one, two or three CPUs (the pools of the validation are sized from that number)
+    from symx import pool as _pool
+    for w in (1, 2, 3):
+        for opts, limit, nofail in [((True, True, True, True), None, False), ((True, True, False, False), 0, True), ((False, False, False, False), None, True)]:
+            def wpath(ctx, w=w, opts=opts, limit=limit, nofail=nofail):
+                obl = Obl(ctx)
+                outcome, detail, _ = taste_once(mods, ref, opts, limit, nofail, ctx, schedule=_pool.Schedule('identity', workers=w))
+                obl.total += 1
+                if outcome == 'good':
+                    obl.trivial += 1
+                else:
+                    obl.failed.append(('Taster(headers=%s, shape=%s, data=%s, coords=%s, limit=%s, nofail=%s) on a host with %d CPU(s), on a well-formed plotfile: %s (%s)'
+                                       % (opts + (limit, nofail, w, outcome, detail.strip().splitlines()[-1] if detail.strip() else '')), None))
+                return obl
+            results, exhaustive, stats = core.explore(wpath, max_paths=64, stop_after_failures=1)
+            res.add_explore(results, exhaustive, stats)
+            nruns += 1
+            for ctx, obl in results:
+                res.add_obl(obl)
+                if obl.failed and 'C03/cpu-count' not in viol:
+                    viol['C03/cpu-count'] = {'signature': 'C03/cpu-count', 'what': obl.failed[0][0], 'opts': list(opts), 'limit': limit, 'nofail': nofail, 'cpus': w}
     # the same plotfile under other spellings of its path (trailing separator, absolute, dotted); cwd is /work
     for spell in SPELLINGS:
         for opts, limit, nofail in [((True, True, True, True), None, False), ((False, False, False, False), 0, True)]:
@@ -229,6 +250,9 @@ def run_case(case):
                "with contextlib.redirect_stdout(io.StringIO()):\n" + pre +
                "    t = Taster(os.path.join(IN, 'plt'), limit_level=%r, binary_headers=%r, binary_shape=%r, binary_data=%r, boxes_coordinates=%r, nofail=%r%s)\n"
                "RESULT = 1.0 if bool(t) else 0.0\n" % (v['limit'], o[0], o[1], o[2], o[3], v['nofail'], '' if v.get('verbose') is None else ', verbose=%r' % v['verbose']))
+        if v.get('cpus'):
+            run = ("import multiprocessing\nos.cpu_count = lambda: %d\nif hasattr(os, 'process_cpu_count'):\n    os.process_cpu_count = lambda: %d\n"
+                   "if hasattr(os, 'sched_getaffinity'):\n    os.sched_getaffinity = lambda pid=0: set(range(%d))\n" % ((v['cpus'],) * 3)) + run
         if v.get('spell'):
             run = run.replace("from amr_kitchen", "os.chdir(IN)\nSPELLED = %r.replace('../work', '../' + os.path.basename(IN)).replace('/work', IN)\nfrom amr_kitchen" % v['spell'], 1)
             run = run.replace("t = Taster(os.path.join(IN, 'plt')", "t = Taster(SPELLED")
